@@ -12,4 +12,22 @@ CHECKS = {
         "technique": "TLC translation validation of observed compiler output against a TLA+ C11/RzIL semantics",
     },
 }
+CHECKS["C01"] = {
+    "category": "translation_validation",
+    "text": "every accepted part of the bundled corpus (seeded stratified sample in quick, all 2181 instructions in thorough) and the 13 "
+            "bundled sub-routines: the emitted IL of both layouts is evaluated by TLC against the C behaviour text parsed by an "
+            "independent parser, on boundary/random machine states; acceptance is compared with CSem!InDialect",
+    "note": TB + "; floating point behaviours are skipped (uninterpreted), HVX behaviours only for 'rejected, not approximated'",
+    "technique": "TLC translation validation of the bundled corpus against a TLA+ C11/RzIL semantics",
+}
+CHECKS["C04"] = {
+    "category": "model_checking",
+    "engine": "tlc-mc",
+    "text": "the real c11_cast / promoted_type are called on every ordered pair of types over the run's width set (24 boundary widths in quick; "
+            "1..160, all multiples of 8 up to 2048 and the neighbours of powers of two in thorough) and every call event is validated by TLC "
+            "against CTypes!Common / CTypes!Promote (result, argument immutability, aliasing, determinism); TLC also checks the three C11 "
+            "clauses on the specification itself",
+    "note": "trusted base: TLC, CTypes.tla, the event logger (harness/ctypes_driver.py); widths outside the set are not covered",
+    "technique": "call-trace validation against a TLA+ definition of the C11 conversion table",
+}
 NOT_YET = {}
